@@ -268,3 +268,61 @@ def check_allocations(res: Result, lcs: List[LaunchCtx], detectors: Dict[str, Se
           ),
         )
   return nalloc
+
+
+def check_counter_survives_to_detector(res: Result, db, entry: str) -> int:
+  """R-CAP.3b: an overflow detector that reads a counter after the fact (`counter > capacity` in a later kernel) only
+  sees what the counter holds at that moment. On the ordered trace of `entry`, for every launch that allocates from a
+  counter under a dropping guard, the counter must reach a detector launch without being re-initialised (host zero_/fill_
+  or a kernel that stores a constant) in between - otherwise blocks dropped before the reset are never reported."""
+  from .. import effects
+
+  hi = db.trace(entry)
+  effs = effects.trace_effects(db, hi)
+  # detectors: launches whose kernel flags Data.overflow under a comparison on a loaded counter
+  det_at = {}  # counter -> [event indices]
+  alloc_at = {}  # counter -> [(index, launch name, loc)]
+  reset_at = {}  # counter -> [(index, what, pc)]
+  for i, e in enumerate(effs):
+    if e.ev.kind == "launch" and e.lc is not None:
+      lc = e.lc
+      for c, caps in overflow_detectors([lc]).items():
+        # only after-the-fact detectors: the counter is *loaded* (not the slot just allocated in the same kernel) and the
+        # flagging statement compares it with a recognised capacity (a mere `tid >= counter` launch clamp next to an
+        # unrelated overflow bit is not a detector of this counter)
+        if not (caps - {"?"}):
+          continue
+        if any(a.kind == "r" and array_key(lc, a.root) == c for a in lc.keval.accesses):
+          det_at.setdefault(c, []).append(i)
+      for al in allocations(lc):
+        alloc_at.setdefault(al.counter, []).append((i, lc.name, e.ev.loc, e.ev.pc))
+      for a in lc.keval.accesses:
+        if a.kind == "w" and isinstance(a.value, T) and a.value.op == "c" and a.value.args[0] == 0:
+          k = array_key(lc, a.root)
+          reset_at.setdefault(k, []).append((i, lc.name, e.ev.pc))
+    elif e.ev.kind == "fill":
+      for k in e.writes:
+        reset_at.setdefault(k, []).append((i, "host zero_/fill_ in " + (e.ev.stack[-1] if e.ev.stack else "?"), e.ev.pc))
+  n = 0
+  for c, dets in sorted(det_at.items()):
+    for i, name, loc, pc in alloc_at.get(c, []):
+      later = [d for d in dets if d > i]
+      if not later:
+        continue
+      d0 = later[0]
+      n += 1
+      # a reset strictly between the allocation and the first later detector, on a path compatible with the allocation
+      # (its host condition does not contradict the allocation's)
+      bad = [(j, what) for j, what, rpc in reset_at.get(c, []) if i < j < d0 and not any((t, not pol) in set(pc) for t, pol in rpc)]
+      res.ob(
+        not bad,
+        f"{entry}|{c}|{name}|survives",
+        Finding(
+          "R-CAP.3b",
+          f"{entry}|{c}|{name}|counter-reset-before-detector|{bad[0][1] if bad else ''}",
+          f"{name} allocates from {c} under a dropping capacity guard, but {bad[0][1] if bad else ''} re-initialises the counter before the overflow detector ({effs[d0].ev.name}) reads it: blocks dropped by this launch are never reported",
+          loc,
+        ),
+        sample={"counter": c, "allocator": name, "detector": effs[d0].ev.name} if n % 10 == 1 else None,
+      )
+  return n
